@@ -156,7 +156,7 @@ fn index_provenance(cx: &mut Ctx, src: &sm::Src) {
     cx.floor(rule, 6);
     let t = sm::tsx(&src.file);
     let checks: [(&str, &str, &str); 6] = [
-        ("string-precision", "lettruncated=self.precision.and_then(|precision|{let(index,_)=s.char_indices().nth(precision)?;Some(TruncatedStr{char_len:precision,inner:&s[..index],})});", "format_string cuts at the byte index of the precision-th character (char_indices().nth) and announces `precision` characters"),
+        ("string-precision", "lettruncated=self.precision.and_then(|precision|{let(index,_)=s.char_indices().nth(precision)?;Some(TruncatedStr{char_len:precision,inner:&s[..index]})});", "format_string cuts at the byte index of the precision-th character (char_indices().nth) and announces `precision` characters"),
         ("no-truncate", "", "no String::truncate with a spec-supplied index"),
         ("separator-split", "letint_end=magnitude_str.find(&['.','e','E','%'][..]).unwrap_or(magnitude_str.len());let(magnitude_int_str,rest)=magnitude_str.split_at(int_end);", "the integer part ends at find(['.','e','E','%']) or len()"),
         ("width-bound", "ifwidth.is_some_and(|width|(i32::MAXasusize)<width){returnErr(FormatSpecError::DecimalDigitsTooMany);}", "FormatSpec::parse rejects widths above i32::MAX (the padding arithmetic is i32)"),
@@ -345,7 +345,7 @@ fn parse_order(cx: &mut Ctx, src: &sm::Src) {
         cx.fail(rule, &format!("{}/zero-flag", rule), &src.loc(m), "the zero flag is not `if zero && fill.is_none() { fill = '0'; align = align.or(AfterSign) }`: an explicit alignment without fill would lose the zero padding");
     }
     // parse_fill_and_align: fill only when the SECOND char is an alignment
-    if sm::tsc(&src.file).contains("matchmaybe_align{Some(_)=>(Some(char_indices[0].1),maybe_align,remaining),_=>{let(only_align,only_align_remaining)=FormatAlign::parse(text);(None,only_align,only_align_remaining)},}") {
+    if sm::tsc(&src.file).contains("matchmaybe_align{Some(_)=>(Some(char_indices[0].1),maybe_align,remaining),_=>{let(only_align,only_align_remaining)=FormatAlign::parse(text);(None,only_align,only_align_remaining)}}") {
         cx.ok(rule, "fill is taken only when the second character is an alignment character");
     } else {
         cx.fail(rule, &format!("{}/fill-align", rule), &src.rel, "parse_fill_and_align does not take the fill only when the second character is an alignment");
